@@ -92,7 +92,9 @@ Section Model.
   Definition pobj_of (X : list (list T)) (yc : list T) (lam : T) (w : list T) : T :=
     let z := residual X yc w in add (dot z z) (mul lam (norm1 w)).
   Definition dual_value (nu yc : list T) : T := sub (mul c_gamma (dot nu nu)) (dot nu yc).
-  Definition stop_test (gap dobj tol : T) : bool := ltb (div gap dobj) tol.
+  (* `gap / dobj < tol || gap <= 0` (the second disjunct is the repair eff8af9: a closed gap stops,
+     also when dobj = 0 makes the quotient NaN) *)
+  Definition stop_test (gap dobj tol : T) : bool := ltb (div gap dobj) tol || leb gap zero.
 
   Record gapinfo := mkgap { g_z : list T; g_nu : list T; g_pobj : T; g_dobj : T; g_gap : T }.
   Definition gap_stage (X : list (list T)) (yc : list T) (lam : T) (w : list T) (dobj : T) : gapinfo :=
